@@ -8,32 +8,6 @@
 //  * IndexMap<StateId, IndexMap<InpId, StateId>>::get and iteration over an inner map.
 verus! {
 
-impl View for IndexMap<InpId, u32> {
-    type V = Map<InpId, u32>;
-    uninterp spec fn view(&self) -> Map<InpId, u32>;
-}
-
-/// the inner maps of the table are what the table's view shows
-pub uninterp spec fn inner_of(m: IndexMap<u32, IndexMap<InpId, u32>>, k: u32) -> IndexMap<InpId, u32>;
-
-impl IndexMap<u32, IndexMap<InpId, u32>> {
-    #[verifier::external_body]
-    pub fn get(&self, k: &u32) -> (r: Option<&IndexMap<InpId, u32>>)
-        ensures
-            r is Some <==> self@.contains_key(*k),
-            r is Some ==> (r->0)@ == self@[*k],
-    { unimplemented!() }
-}
-
-/// `for (k, v) in &inner_map` / `inner_map.iter()`: every entry once
-#[verifier::external_body]
-pub fn __imap_entries<'a>(m: &'a IndexMap<InpId, u32>) -> (r: Vec<(&'a InpId, &'a u32)>)
-    ensures
-        forall|i: int| 0 <= i < r@.len() ==> m@.contains_key(*(#[trigger] r@[i]).0) && m@[*r@[i].0] == *r@[i].1,
-        forall|k: InpId| m@.contains_key(k) ==> exists|i: int| 0 <= i < r@.len() && *(#[trigger] r@[i]).0 == k,
-        forall|i: int, j: int| 0 <= i < j < r@.len() ==> *(#[trigger] r@[i]).0 != *(#[trigger] r@[j]).0,
-{ unimplemented!() }
-
 impl DFA {
     #[verifier::external_body]
     fn iter_transitions(&self) -> (r: Vec<(StateId, InpId, StateId)>)
@@ -168,14 +142,6 @@ pub fn __entry_or_insert_counter_ix(m: &mut IndexMap<DFAId, usize>, k: DFAId, co
     ensures
         old(m)@.contains_key(k) ==> final(m)@ == old(m)@ && *final(counter) == *old(counter),
         !old(m)@.contains_key(k) ==> final(m)@ == old(m)@.insert(k, *old(counter)) && *final(counter) == *old(counter) + 1,
-{ unimplemented!() }
-
-/// `for (k, v) in &table`: every row once
-#[verifier::external_body]
-pub fn __tmap_entries<'a>(m: &'a IndexMap<u32, IndexMap<InpId, u32>>) -> (r: Vec<(&'a u32, &'a IndexMap<InpId, u32>)>)
-    ensures
-        forall|i: int| 0 <= i < r@.len() ==> m@.contains_key(*(#[trigger] r@[i]).0) && m@[*r@[i].0] == r@[i].1@,
-        forall|k: u32| m@.contains_key(k) ==> exists|i: int| 0 <= i < r@.len() && *(#[trigger] r@[i]).0 == k,
 { unimplemented!() }
 
 } // verus!
